@@ -386,8 +386,10 @@ fn validate_nameserver_response(
             if rtype.matches(question.qtype) && an.name == final_name {
                 rrs_for_query.push(an.clone());
                 seen_final_record = true;
-            } else if rtype == RecordType::CNAME && cname_map.contains_key(&an.name) {
-                rrs_for_query.push(an.clone());
+            } else if let RecordTypeWithData::CNAME { cname } = &an.rtype_with_data {
+                if cname_map.get(&an.name) == Some(cname) {
+                    rrs_for_query.push(an.clone());
+                }
             }
         }
 
@@ -515,16 +517,18 @@ fn follow_cnames(
 
     let mut seen = HashSet::new();
     let mut final_name = target.clone();
+    let mut cname_path = HashMap::<DomainName, DomainName>::new();
     while let Some(target) = cname_map.get(&final_name) {
         if seen.contains(target) {
             return None;
         }
         seen.insert(target.clone());
+        cname_path.insert(final_name.clone(), target.clone());
         final_name = target.clone();
     }
 
     if got_match || !seen.is_empty() {
-        Some((final_name, cname_map))
+        Some((final_name, cname_path))
     } else {
         None
     }
